@@ -21,7 +21,7 @@ OptShapes == {"omitted", "empty", "partial"}
 Dirs == {"up", "down", "left", "right"}
 Algs == {"overlap", "simple", "none"}
 \* ("maxonly": the lower bound switched off - minPos None - with an upper bound kept)
-Bounds == {"none", "max", "zero", "maxonly"}
+Bounds == {"none", "max", "zero", "maxonly", "narrow"}          \* ("narrow": a band narrower than a single label)
 \* ("n1000" / "n703": that many labels in all - the claim goes up to 1000 - with a conflict cluster of 100)
 Clusters == {"small", "c150", "c190", "c199", "c200", "c400", "n1000", "n703"}
 Desc == [count : Counts, ttype : TTypes, arr : Arrs, span : Spans, opts : OptShapes, dir : Dirs, alg : Algs,
